@@ -18,6 +18,9 @@ CFG = {
         "Swat4.C09.C09_rows_change_only_by_commit",
         "Swat4.C09.C09_replay",
         "Swat4.C09.C09_linearizable",
+        "Swat4.C09.C09_committed_result",
+        "Swat4.C09.C09_no_effect_unless_committed",
+        "Swat4.C09.C09_error_no_effect",
         "Swat4.C09.C09_measure_decreases",
         "Swat4.C09.C09_bounded_measure",
         "Swat4.C09.C09_bounded",
@@ -60,7 +63,8 @@ CFG = {
                 "C09_rows_change_only_by_commit / C09_replay - servers:items/updated/refreshed/status change only at accepted "
                 "EXECs and the final rows are the logged batches replayed in order; C09_linearizable - from any Init state, "
                 "every logged commit decided on the row of the sequential replay of the commits before it, its call returns "
-                "that decision's result, and every call commits at most once; C09_bounded/C09_finishes - a call executes at "
+                "that decision's result, and every call commits at most once; C09_error_no_effect - a call that returned an "
+                "error committed nothing; C09_bounded/C09_finishes - a call executes at "
                 "most 75 (<= 5*16) storage commands in any schedule and has returned once scheduled 80 times; C09_listing - "
                 "Filter's HMGET step cannot fail and returns only records stored at that instant. The model is tied to "
                 "servers.go / redislock by replaying generated command-level schedules on the real repository under a go-redis "
